@@ -104,17 +104,18 @@ def indexOfN (h : Heap) (v : Value) : List Value → Nat → Option (Option Nat)
   | x :: xs, i =>
     match valueCompare h x v with
     | none => none
-    | some 0 => some (some i)
-    | some _ => indexOfN h v xs (i + 1)
+    | some c => if c = 0 then some (some i) else indexOfN h v xs (i + 1)
 
-/-- last index `≤ start` whose element compares equal to `v`: scan the first `start+1` elements from the right -/
-def lastIndexOfN (h : Heap) (v : Value) : List Value → Nat → Option (Option Nat)
-  | [], _ => some none
-  | x :: xs, n =>      -- the list is reversed: x is element number n-1
-    match valueCompare h x v with
+/-- last index `< n` whose element compares equal to `v`: scan `n-1, n-2, …, 0` -/
+def lastIndexOfN (h : Heap) (v : Value) (xs : List Value) : Nat → Option (Option Nat)
+  | 0 => some none
+  | n + 1 =>
+    match xs[n]? with
     | none => none
-    | some 0 => some (some (n - 1))
-    | some _ => lastIndexOfN h v xs (n - 1)
+    | some x =>
+      match valueCompare h x v with
+      | none => none
+      | some c => if c = 0 then some (some n) else lastIndexOfN h v xs n
 
 def searchResN : Option (Option Nat) → Eff
   | none => .unmodelled
@@ -187,7 +188,7 @@ def arrayLastIndexOfS : List VArg → Heap → Eff
         if i < xs.length then
           match v with
           | .fn _ => .unmodelled
-          | v => searchResN (lastIndexOfN h v (xs.take (i + 1)).reverse (i + 1))
+          | v => searchResN (lastIndexOfN h v xs (i + 1))
         else .fail (numI (-1))
     | none => .unmodelled
   | _, _ => .unmodelled
